@@ -26,18 +26,21 @@ package ttlv
 //@ func newTTLVReader
 //@   ensures r1 == nil ==> r0 != nil && isnew(r0) && r0.buf == buf && hdOK(buf)
 //@   ensures r1 != nil ==> r0 == nil
+//@   ensures hdOK(buf) ==> r1 == nil
 //@   pure
 
 //@ func (*ttlvReader).validate
 //@   requires dec != nil
 //@   ensures r0 == nil ==> hdOK(dec.buf)
 //@   pure
+//@   ensures hdOK(dec.buf) ==> r0 == nil
 
 //@ func (*ttlvReader).Next
 //@   requires dec != nil && hdOK(dec.buf) && len(dec.buf) > 0
 //@   ensures advanced(dec.buf, old(dec.buf))
 //@   ensures r0 == nil ==> hdOK(dec.buf)
 //@   modifies dec.buf
+//@   ensures hdOK(dec.buf) ==> r0 == nil
 
 //@ func (*ttlvReader).value
 //@   requires dec != nil && hdOK(dec.buf)
@@ -48,57 +51,68 @@ package ttlv
 //@ func (*ttlvReader).assertType
 //@   requires dec != nil && hdOK(dec.buf)
 //@   ensures r0 == nil ==> len(dec.buf) > 0 && dec.buf[3] == uint8(ty) && tagOf(dec.buf) == tag
+//@   ensures len(dec.buf) > 0 && dec.buf[3] == uint8(ty) && tagOf(dec.buf) == tag ==> r0 == nil
 //@   pure
 
 //@ func (*ttlvReader).Integer
 //@   requires dec != nil && hdOK(dec.buf)
+//@   ensures old(len(dec.buf) > 0 && dec.buf[3] == 2 && tagOf(dec.buf) == tag) && hdOK(old(dec.buf)[8+old(padded(lenOf(dec.buf))):]) ==> r1 == nil
 //@   ensures r1 == nil ==> r0 == int32(old(be32(dec.buf, 8))) && advanced(dec.buf, old(dec.buf)) && hdOK(dec.buf)
 //@   modifies dec.buf
 
 //@ func (*ttlvReader).LongInteger
 //@   requires dec != nil && hdOK(dec.buf)
+//@   ensures old(len(dec.buf) > 0 && dec.buf[3] == 3 && tagOf(dec.buf) == tag) && hdOK(old(dec.buf)[8+old(padded(lenOf(dec.buf))):]) ==> r1 == nil
 //@   ensures r1 == nil ==> r0 == int64(old(be64(dec.buf, 8))) && advanced(dec.buf, old(dec.buf)) && hdOK(dec.buf)
 //@   modifies dec.buf
 
 //@ func (*ttlvReader).Enum
 //@   requires dec != nil && hdOK(dec.buf)
+//@   ensures old(len(dec.buf) > 0 && dec.buf[3] == 5 && tagOf(dec.buf) == tag) && hdOK(old(dec.buf)[8+old(padded(lenOf(dec.buf))):]) ==> r1 == nil
 //@   ensures r1 == nil ==> r0 == old(be32(dec.buf, 8)) && advanced(dec.buf, old(dec.buf)) && hdOK(dec.buf)
 //@   modifies dec.buf
 
 //@ func (*ttlvReader).Bool
 //@   requires dec != nil && hdOK(dec.buf)
+//@   ensures old(len(dec.buf) > 0 && dec.buf[3] == 6 && tagOf(dec.buf) == tag) && hdOK(old(dec.buf)[8+old(padded(lenOf(dec.buf))):]) ==> r1 == nil
 //@   ensures r1 == nil ==> r0 == (old(dec.buf[15]) != 0) && advanced(dec.buf, old(dec.buf)) && hdOK(dec.buf)
 //@   modifies dec.buf
 
 //@ func (*ttlvReader).BigInteger
 //@   requires dec != nil && hdOK(dec.buf)
+//@   ensures old(len(dec.buf) > 0 && dec.buf[3] == 4 && tagOf(dec.buf) == tag) && hdOK(old(dec.buf)[8+old(padded(lenOf(dec.buf))):]) ==> r1 == nil
 //@   ensures r1 == nil ==> old(len(dec.buf)) > 0 && old(dec.buf[3]) == 4 && old(tagOf(dec.buf)) == tag
 //@   ensures r1 == nil ==> r0 != nil && advanced(dec.buf, old(dec.buf)) && hdOK(dec.buf)
 //@   modifies dec.buf
 
 //@ func (*ttlvReader).TextString
 //@   requires dec != nil && hdOK(dec.buf)
+//@   ensures old(len(dec.buf) > 0 && dec.buf[3] == 7 && tagOf(dec.buf) == tag) && hdOK(old(dec.buf)[8+old(padded(lenOf(dec.buf))):]) ==> r1 == nil
 //@   ensures r1 == nil ==> bytes_eq(r0, old(dec.buf)[8:8+old(lenOf(dec.buf))]) && advanced(dec.buf, old(dec.buf)) && hdOK(dec.buf)
 //@   modifies dec.buf
 
 //@ func (*ttlvReader).ByteString
 //@   requires dec != nil && hdOK(dec.buf)
+//@   ensures old(len(dec.buf) > 0 && dec.buf[3] == 8 && tagOf(dec.buf) == tag) && hdOK(old(dec.buf)[8+old(padded(lenOf(dec.buf))):]) ==> r1 == nil
 //@   ensures r1 == nil ==> bytes_eq(r0, old(dec.buf)[8:8+old(lenOf(dec.buf))]) && advanced(dec.buf, old(dec.buf)) && hdOK(dec.buf)
 //@   ensures r1 == nil && len(r0) > 0 ==> isnew(r0)
 //@   modifies dec.buf
 
 //@ func (*ttlvReader).DateTime
 //@   requires dec != nil && hdOK(dec.buf)
+//@   ensures old(len(dec.buf) > 0 && dec.buf[3] == 9 && tagOf(dec.buf) == tag) && hdOK(old(dec.buf)[8+old(padded(lenOf(dec.buf))):]) ==> r1 == nil
 //@   ensures r1 == nil ==> unix(r0) == int64(old(be64(dec.buf, 8))) && advanced(dec.buf, old(dec.buf)) && hdOK(dec.buf)
 //@   modifies dec.buf
 
 //@ func (*ttlvReader).Interval
 //@   requires dec != nil && hdOK(dec.buf)
+//@   ensures old(len(dec.buf) > 0 && dec.buf[3] == 10 && tagOf(dec.buf) == tag) && hdOK(old(dec.buf)[8+old(padded(lenOf(dec.buf))):]) ==> r1 == nil
 //@   ensures r1 == nil ==> int64(r0) == int64(old(be32(dec.buf, 8)))*1000000000 && advanced(dec.buf, old(dec.buf)) && hdOK(dec.buf)
 //@   modifies dec.buf
 
 //@ func (*ttlvReader).Bitmask
 //@   requires dec != nil && hdOK(dec.buf)
+//@   ensures old(len(dec.buf) > 0 && dec.buf[3] == 2 && tagOf(dec.buf) == tag) && hdOK(old(dec.buf)[8+old(padded(lenOf(dec.buf))):]) ==> r1 == nil
 //@   ensures r1 == nil ==> r0 == int32(old(be32(dec.buf, 8))) && advanced(dec.buf, old(dec.buf)) && hdOK(dec.buf)
 //@   modifies dec.buf
 
@@ -227,3 +241,44 @@ package ttlv
 //   ensures bigsign(value) >= 0 ==> is_cat(enc.buf[old(len(enc.buf))+8:], rep(0, len(enc.buf)-old(len(enc.buf))-8-len(bigmag(value))), bigmag(value))
 //@   ensures off(enc.buf) == old(off(enc.buf))
 //@   modifies enc.buf, elems(enc.buf)
+
+// ---------------------------------------------------------------------------
+// stream framing (C07). The transport is an arbitrary io.Reader over a ghost input tape.
+
+//@ ghostvar consumed int
+//@ ghostvar decodeCalls int
+//@ ghostvar lastDecoded []byte
+
+//@ spec tapeLen(c int) int = int(uint32(tape(c+4))<<24 | uint32(tape(c+5))<<16 | uint32(tape(c+6))<<8 | uint32(tape(c+7)))
+//@ spec needAt(c int) int = 8 + padded(tapeLen(c))
+
+//@ iface (io.Reader).Read
+//@   recv r
+//@   params p
+//@   results n, err
+//@   ensures 0 <= n && n <= len(p)
+//@   ensures from_tape(p[:n], old(consumed))
+//@   ensures frame_outside(p[:n])
+//@   modifies elems(p)
+//@   ghost consumed = old(consumed) + n
+
+//@ func UnmarshalTTLV
+//@   trusted
+//@   pure
+//@   ghost decodeCalls = old(decodeCalls) + 1
+//@   ghost lastDecoded = data
+
+//@ func (*Stream).Recv
+//@   requires s != nil && s.inner != nil && 0 <= consumed && consumed < 1<<40
+//@   ensures r0 == nil ==> consumed-old(consumed) == needAt(old(consumed)) && decodeCalls == old(decodeCalls)+1
+//@   ensures r0 == nil ==> len(lastDecoded) == needAt(old(consumed)) && from_tape(lastDecoded, old(consumed))
+//@   ensures r0 == nil ==> s.max <= 0 || needAt(old(consumed)) <= s.max
+//@   ensures r0 != nil && decodeCalls == old(decodeCalls) && !(consumed-old(consumed) >= 8 && s.max > 0 && needAt(old(consumed)) > s.max) ==> consumed-old(consumed) < 8 || consumed-old(consumed) < needAt(old(consumed))
+//@   pure
+//@   loop 0 invariant 0 <= read && read < need && read <= cap(buf) && len(buf) == 512 && cap(buf) >= 512 && (cap(buf) == 512 || (read >= 8 && need <= cap(buf)))
+//@   loop 0 invariant consumed == old(consumed)+read && decodeCalls == old(decodeCalls)
+//@   loop 0 invariant from_tape(buf[:read], old(consumed))
+//@   loop 0 invariant (read < 8 ==> need == 8) && (read >= 8 ==> need == needAt(old(consumed)))
+//@   loop 0 invariant s.max <= 0 || need <= s.max || need <= 512
+//@   loop 0 invariant isnew(buf)
+//@   loop 0 ghostmod consumed
